@@ -1,5 +1,6 @@
 (* Witness programs for interp_correct_refuted (the same programs are replayed on the real nanoc by tools/props/c03.py:
-   tools/props/shadow_witnesses.py keys c03:dynamic-scope, c03:block-exit).  Definitions only. *)
+   tools/props/shadow_witnesses.py keys c03:dynamic-scope, c03:dynamic-scope-param) and for the block-scoping examples
+   (key c03:block-exit, fixed by 9481a65).  Definitions only. *)
 From Coq Require Import ZArith NArith List Bool.
 From NV Require Import Lang.Ast Back.InterpSem Driver.ShadowGate.
 Import ListNotations.
@@ -24,6 +25,17 @@ Definition sp81 : sprogram :=
 Definition sp81_unsound : sprogram :=
   {| sp_prog := p81;
      sp_shadows := [ {| sh_fn := 3; sh_body := SAssert (eqz (call0 3) 20); sh_skip := false |} ] |}.
+
+(* a PARAMETER spelled like the constant:   fn h(x) { return (g) }   (h 5) is 10 *)
+Definition p81p : program :=
+  {| pglobals := [(1, TInt, ENum 10)];
+     pfns := [ {| fname := 2; fparams := []; fret := TInt; fbody := SReturn (Some (EVar 1)) |};
+               {| fname := 3; fparams := [(1, TInt)]; fret := TInt; fbody := SReturn (Some (call0 2)) |};
+               {| fname := 0; fparams := []; fret := TInt; fbody := SReturn (Some (ENum 0)) |} ];
+     pmain := 0 |}.
+Definition sp81p : sprogram :=
+  {| sp_prog := p81p;
+     sp_shadows := [ {| sh_fn := 3; sh_body := SAssert (eqz (ECall 3 [ENum 5]) 10); sh_skip := false |} ] |}.
 
 (* block exit:  fn blk(a) { let x = 1  if (> a 0) { let x = 2  (println x) }  (println x)  return x }   (blk 1) is 1 *)
 Definition pblk : program :=
